@@ -85,6 +85,13 @@ def _check(ctx: Ctx, only=None) -> None:
         rng = events_matching(exits, lambda e: e[0] == "attrstore" and e[1] == "msg" and e[2] == "channel")
         ctx.check(rng == (1, 1) and all(k == "end" for k, _ in exits), "FR", f"{q}: every message gets the channel {rng}", function=q,
                   construct="set_channel skips some messages", message=f"stores per message {rng}, exits {sorted({k for k, _ in exits})}", file=fi.file, node=lp)
+        from ..astutil import early_exits_before, path_conditions
+        ex = early_exits_before(fi.node, lp)
+        pcs = path_conditions(lp)
+        ctx.check(not ex and not pcs, "FR", f"{q}: the loop over the messages is always reached", function=q,
+                  construct="set_channel can return before (or skip) the loop over its messages",
+                  message=f"early exits {[short(x) for x in ex]}, conditions {[short(t) for t, _ in pcs]}: for some sequences no event gets the new channel "
+                          f"(the first message's channel says nothing about the others)", file=fi.file, node=ex[0] if ex else lp)
         st = [n for n in ast.walk(lp) if isinstance(n, ast.Assign) and any(isinstance(t, ast.Attribute) and t.attr == "channel" for t in n.targets)]
         ctx.check(bool(st) and all(isinstance(n.value, ast.Name) and n.value.id == fi.params[1] for n in st), "FR", f"{q}: assigns its argument",
                   function=q, construct="set_channel assigns something other than its argument", message=f"{[short(n) for n in st]}", file=fi.file, node=lp)
